@@ -134,9 +134,15 @@ class Facts:
         txt = stacks.get("stacks.%s.txt" % self.driver_pid, "")
         threads = parse_faulthandler(txt)
         roles = {}
+        import linecache as _lc
+
+        sig["mgr_blocked_on_management_lock"] = False
         for frames in threads:
             role, inner = classify_thread(frames)
             roles.setdefault(role, []).append(inner)
+            if role == "mgr" and len(frames) >= 2 and frames[0][0].endswith("loky/backend/synchronize.py") and frames[0][2] in ("__enter__", "acquire"):
+                if "processes_management_lock" in _lc.getline(frames[1][0], frames[1][1]):
+                    sig["mgr_blocked_on_management_lock"] = True
         sig["mgr_in"] = roles.get("mgr", [None])[0]
         sig["feeder_in"] = roles.get("feeder", [None])[0]
         users = [u for u in roles.get("user", []) if u]
@@ -166,6 +172,12 @@ class Facts:
                             blocked += 1
                             break
         sig["worker_blocked_on_result_wlock"] = blocked > 0
+        live = 0
+        for pr in st.get("procs", []):
+            cmd = pr.get("cmdline") or ""
+            if pr.get("state") not in (None, "Z") and ("popen_loky_posix" in cmd or "multiprocessing.spawn" in cmd or "multiprocessing.forkserver" in cmd or (pr.get("ppid") == self.driver_pid and "resource_tracker" not in cmd and "lv_driver" in cmd)):
+                live += 1
+        sig["no_live_worker"] = live == 0
         sig["workers_in"] = sorted(set(wstate))
         busy = [p for p in st.get("procs", []) if p.get("pid") == self.driver_pid]
         sig["driver_cpu_ticks"] = busy[0].get("cpu_ticks_in_1s") if busy else None
